@@ -130,6 +130,8 @@ def get_mod_nodes_remove_incompatibilities(
         # If any of the deriving nodes are in the confirmed nodes, we have an infeasible graph
         if len(deriving_nodes & confirmed_nodes) > 0:
             removed_nodes -= confirmed_nodes
+            # Confirmed nodes are kept, so the edges between them should be kept too
+            removed_edges -= {e for e in removed_edges if e[0] in confirmed_nodes and e[1] in confirmed_nodes}
             raise IncompatibilityError('Incompatibility constraint derives from confirmed nodes', {edge}, removed_nodes)
 
     return removed_nodes
